@@ -1,5 +1,5 @@
 # one source, six parts (-DHXS_PART=n) so that the builds run in parallel: value uses, key uses, index lookups,
-# containsKey/remove lookups, comparison operands, copy paths + sharing grid
+# containsKey/remove lookups, comparison operands + aliasing operands, copy paths + sharing grid
 def _c14_jobs():
     return [{"src": "checks/hx_strings.cpp", "mode": "strings", "arduino": True, "deps": ["checks/hx_strings.hpp"],
              "defs": ["HXS_PART=%d" % part], "fallback_defs": ["VERIF_NO_INSPECTOR"]} for part in range(1, 7)]
@@ -11,7 +11,9 @@ PROPS["C14"] = {
                  "observations (isLinked() excepted); independence by overwriting / destroying the source of every copied kind right after "
                  "the call; sharing grid judged by the ordered-tree model, the inspector's reference counts and a ledger allocator",
     "rule": "case = (string s, use u, ordered pair of kinds (reference kind A = first kind that can express s, kind B)) with three runs of B "
-            "(plain, source overwritten with 'X', source overwritten and destroyed), or (s, k users in roles {value copied, value linked, key copied, "
+            "(plain, source overwritten with 'X', source overwritten and destroyed), or (s, prefix length n, sized operand kind, buffer it aliases {held by address, pooled node, source of the storing operand}, use) "
+            "run with the operand viewing that buffer and with the operand copied to a fresh address, "
+            "or (s, k users in roles {value copied, value linked, key copied, "
             "key linked, raw}, kind rotation, one mutation of one user); kinds compared only when both can express s (embedded NUL: sized kinds only; "
             "65536 bytes: by-address kinds among themselves, copying kinds must refuse cleanly); non-trivial = the two kinds differ in storage "
             "(by address vs copied) or s needs NUL / bytes >= 0x80 / numeric conversion / a boundary length, for sharing: copied and linked users mixed",
